@@ -310,3 +310,78 @@ Proof.
   rewrite Hn0. cbn [n_xy_bits]. rewrite Hxy. unfold trunc. rewrite !Z.mod_small by lia. reflexivity.
 Qed.
 
+
+(* ------------------------------------------------------------------ both interfaces on local ports *)
+Section Local.
+  Variables (d : desc) (g : graph) (c : compiled) (rd : rt_desc) (mm nn : Z).
+  Hypothesis Hb : build d = Ok g.
+  Hypothesis Hc : compile d g = Ok c.
+  Hypothesis Halgo : d_algo d = XY.
+  Hypothesis Hrts : d_rts d = [rd].
+  Hypothesis Harr : rt_array rd = Some [mm; nn].
+  Hypothesis Htree : rt_tree rd = None.
+  Hypothesis Hauto : rt_auto rd = true.
+  Variables (sp : oracle) (ri : rinfo) (n : netlist) (nt : net).
+  Hypothesis Hnt : net_ok d nt.
+  Hypothesis Hri : gen_routing_info sp c = Ok ri.
+  Hypothesis He : emit c ri = Ok n.
+  Hypothesis Hwire : forall l, In l (n_links n) -> fst l = net_type nt -> signal_ok n l.
+  Variables (xb yb ab ox oy : Z).
+  Hypothesis Hxy : ri_xy ri = Some (xb, (yb, (ab, (ox, oy)))).
+  Let nm (i j : Z) : string := full_name (rt_name rd) [i; j].
+
+  (* interface x sits on the local port (Eject, index 4) of the router at (i, j): the two link edges between them
+     name direction 4 at the router end *)
+  Definition on_local (x : cni) (i j : Z) : Prop :=
+    in_grid mm nn i j /\
+    (exists e, In e (g_edges g) /\ is_link e = true /\ e_src e = nm i j /\ e_dst e = cn_name x /\ e_src_dir e = Some 4) /\
+    (exists e, In e (g_edges g) /\ is_link e = true /\ e_src e = cn_name x /\ e_dst e = nm i j /\ e_dst_dir e = Some 4) /\
+    attach nt x = (cn_name x, nm i j).
+
+  Lemma local_out x i j r : on_local x i j -> In r (c_rts c) -> cr_name r = nm i j ->
+    nth_error (cr_out r) 4 = Some (Some (nm i j, cn_name x)).
+  Proof.
+    intros (_ & (e & Hin & Hl & Hs & Hd & Hdir) & _) Hr Hn.
+    destruct (crt_origin d g c Hc r Hr) as (rt & rid & Hq & Hnr).
+    assert (Hef : In e (filter is_link (edges_from g (n_name rt)))).
+    { apply filter_In. split; [|exact Hl]. unfold edges_from. apply filter_In. split.
+      - apply (edges_view_In g e (proj2 (build_ginv d g Hb))). exact Hin.
+      - apply String.eqb_eq. congruence. }
+    pose proof (dir_out_slot d g rt rid r Hq e 4 Hef Hdir ltac:(lia)) as H. unfold epair in H. rewrite Hs, Hd in H. exact H.
+  Qed.
+
+  Lemma local_in x i j r k : on_local x i j -> In r (c_rts c) -> cr_name r = nm i j ->
+    nth_error (cr_in r) k = Some (Some (cn_name x, nm i j)) -> k = 4%nat.
+  Proof.
+    intros (_ & _ & (e & Hin & Hl & Hs & Hd & Hdir) & _) Hr Hn Hk.
+    destruct (crt_origin d g c Hc r Hr) as (rt & rid & Hq & Hnr).
+    assert (Hef : In e (filter is_link (edges_to g (n_name rt)))).
+    { apply filter_In. split; [|exact Hl]. unfold edges_to. apply filter_In. split.
+      - apply (edges_view_In g e (proj2 (build_ginv d g Hb))). exact Hin.
+      - apply String.eqb_eq. congruence. }
+    pose proof (dir_in_slot d g rt rid r Hq e 4 Hef Hdir ltac:(lia)) as H4. unfold epair in H4. rewrite Hs, Hd in H4.
+    assert (Hl' : is_link_of g (cn_name x, cr_name r)) by (exists e; cbn; repeat split; auto; congruence).
+    destruct (in_slot_of d g c Hb Hc r (cn_name x) Hr Hl') as (i0 & _ & Huniq).
+    rewrite <- Hn in Hk, H4. pose proof (Huniq _ Hk) as E1. pose proof (Huniq _ H4) as E2. change (Z.to_nat 4) with 4%nat in E2. lia.
+  Qed.
+
+  (* C04: any two different interfaces on local ports of the array reach each other *)
+  Theorem xy_send_local s0 t a b tx ty :
+    In s0 (c_nis c) -> In t (c_nis c) -> cn_name s0 <> cn_name t ->
+    on_local s0 a b -> on_local t tx ty ->
+    t_out (send n nt (emit_ni d (ri_offset ri) s0) (HXY (tx - ox) (ty - oy) 0)) = Delivered (cn_name t) (HXY (tx - ox) (ty - oy) 0).
+  Proof.
+    intros Hs0 Ht Hne Hls Hlt.
+    pose proof Hls as (Hab & _ & _ & Hatt). pose proof Hlt as (Htg & _).
+    apply (xy_send d g c rd mm nn Hb Hc Halgo Hrts Harr Htree Hauto sp ri n nt Hnt Hri He Hwire xb yb ab ox oy Hxy t tx ty Ht Htg
+             (fun r Hr Hn => local_out t tx ty r Hlt Hr Hn) s0 a b Hs0 ltac:(rewrite Hatt; reflexivity) Hab).
+    intros r i Hr Hn Hin. pose proof (local_in s0 a b r i Hls Hr Hn Hin) as ->.
+    (* port 4 is compatible with every phase except arrival; arrival would put s0 and t on the same local port *)
+    unfold inp_ok. destruct (Z.ltb_spec tx a); [repeat split; discriminate|]. destruct (Z.ltb_spec a tx); [repeat split; discriminate|].
+    destruct (Z.ltb_spec b ty); [discriminate|]. destruct (Z.ltb_spec ty b); [discriminate|].
+    exfalso. assert (a = tx) by lia. assert (b = ty) by lia. subst a b.
+    pose proof (local_out t tx ty r Hlt Hr Hn) as Ho.
+    destruct (crt_out_link d g c Hb Hc r 4 _ _ Hr Ho) as (_ & Hin4 & _).
+    rewrite Hin4 in Hin. inversion Hin. congruence.
+  Qed.
+End Local.
